@@ -350,7 +350,7 @@ def run(cx):
                 if rng.random() < 0.3:
                     items.append(("find", c, e, {"text": X.render(e, rng)}))
         # RFC 7950 section 10 functions and canonising comparisons, type-directed, from random context nodes
-        for k in range(cx.n(40, 120)):
+        for k in range(cx.n(60, 160)):
             c = rng.randrange(0, len(nodes) + 1) if nodes else 0
             g.nonroot = c != 0
             y = rng.random()
